@@ -15,7 +15,7 @@ from mc.ref import tsfmt
 
 OBS_PREC = {"FOLLOWEDBY": 1, "OR": 2, "AND": 3}
 CMP_PREC = {"OR": 1, "AND": 2}
-IDENT = re.compile(r"^[a-zA-Z_][a-zA-Z0-9_]*$")
+IDENT = re.compile(r"^[a-zA-Z_][a-zA-Z0-9_]*\Z")
 
 
 # ---- printer -------------------------------------------------------------------------------------------
